@@ -27,7 +27,7 @@ const (
 )
 
 type fault struct {
-	Dom  string `json:"dom"` // ms | kms | aead | alloc | access
+	Dom  string `json:"dom"` // ms | kms | aead | alloc | access | memcall
 	Idx  int    `json:"idx"` // call index within the domain, relative to the start of the operation under test
 	Kind string `json:"kind"`
 }
@@ -171,15 +171,21 @@ func validKinds(c ext) []string {
 		return []string{"err"}
 	case "access":
 		return []string{probe.AccessRefuse, probe.AccessRelease}
+	case "memcall":
+		return []string{"err"}
 	default:
 		return []string{"err", "delay"}
 	}
 }
 
-type bases struct{ ms, kms, aead, led, acc int }
+type bases struct{ ms, kms, aead, led, acc, mc int }
 
 func (e *env) bases() bases {
-	return bases{e.w.MS.N(), e.w.KMS.N(), e.w.AEAD.N(), e.w.Led.Calls(), e.w.Led.Accesses()}
+	b := bases{e.w.MS.N(), e.w.KMS.N(), e.w.AEAD.N(), e.w.Led.Calls(), e.w.Led.Accesses(), 0}
+	if e.w.MC != nil {
+		b.mc = e.w.MC.N()
+	}
+	return b
 }
 
 func (e *env) arm(b bases, fs []fault) {
@@ -207,6 +213,10 @@ func (e *env) arm(b bases, fs []fault) {
 			e.w.Led.FailAt[b.led+f.Idx] = true
 		case "access":
 			e.w.Led.AccessFaults[b.acc+f.Idx] = f.Kind
+		case "memcall":
+			if e.w.MC != nil {
+				e.w.MC.FailAt[b.mc+f.Idx] = true
+			}
 		}
 	}
 }
@@ -220,6 +230,9 @@ func (e *env) disarm() {
 	e.w.AEAD.Delays = map[int]time.Duration{}
 	e.w.Led.FailAt = map[int]bool{}
 	e.w.Led.AccessFaults = map[int]string{}
+	if e.w.MC != nil {
+		e.w.MC.FailAt = map[int]bool{}
+	}
 }
 
 // trace lists the external calls made since b, in program order.
@@ -239,6 +252,11 @@ func (e *env) trace(b bases) []ext {
 	}
 	for _, c := range e.w.Led.AccessLog(b.acc) {
 		out = append(out, ext{c.Seq, "access", c.Idx - b.acc, c.Kind, ""})
+	}
+	if e.w.MC != nil {
+		for _, c := range e.w.MC.EventsFrom(b.mc) {
+			out = append(out, ext{c.Seq, "memcall", c.Idx - b.mc, c.Op, ""})
+		}
 	}
 	sort.Slice(out, func(i, j int) bool { return out[i].Seq < out[j].Seq })
 	return out
@@ -299,6 +317,10 @@ var execBackend, execSuffix = "memory", ""
 // region is unreachable.
 var execAWSKMS = 0
 
+// execMemcall puts the secure-memory implementation of the executions that follow on a monitored memcall whose
+// primitives (alloc, lock, protect, unlock, free) can fail by call index: fault domain "memcall".
+var execMemcall = false
+
 var journalPath = os.Getenv("VERIF_JOURNAL")
 
 func journal(s string) {
@@ -334,6 +356,9 @@ func execute(sc scenario, cfgName, op string, fs []fault) (res result) {
 	e.w.Suffix = execSuffix
 	if execAWSKMS != 0 {
 		e.w.UseAWSKMS(execAWSKMS)
+	}
+	if execMemcall {
+		e.w.UseMemcall(secretImpl)
 	}
 	defer e.w.Close()
 	// secrets whose reference was taken by the "parent SK re-resolved" step of intermediateKeyFromEKR
@@ -426,6 +451,13 @@ func execute(sc scenario, cfgName, op string, fs []fault) (res result) {
 	for _, c := range e.w.Led.AccessLog(b.acc) {
 		if c.Failed {
 			res.fired++
+		}
+	}
+	if e.w.MC != nil {
+		for _, c := range e.w.MC.EventsFrom(b.mc) {
+			if c.Fault {
+				res.fired++
+			}
 		}
 	}
 
